@@ -757,6 +757,56 @@ fn uniformity(r: &mut Report, seed: u64, thorough: bool) {
     r.notes.push(format!("uniformity oracle: {} samples per (flavour, length), tolerance {:.4} on each member frequency (Hoeffding, total false-alarm budget 1e-12)", k, eps));
 }
 
+/// Large collections: a per-member frequency count is useless there (tens of thousands of members), but a sampler
+/// that is not uniform changes the number of *collisions* (pairs of equal draws): for a uniform choice among n
+/// members, k draws have C(k,2)/n colliding pairs on average with variance C(k,2)(1/n)(1-1/n) (pairs are pairwise
+/// independent).  A multiply-shift / modulo sampler without rejection, or a sampler without replacement, shifts that
+/// count by many standard deviations.  Two-sided test at 10 sigma (normal approximation), fixed seeds.
+fn uniformity_large(r: &mut Report, seed: u64, thorough: bool) {
+    let k: usize = if thorough { 400_000 } else { 120_000 };
+    // non-powers of two below and above 2^16, and one far from any power of two
+    let lens = [40_000usize, 49_152, 65_535, 100_003];
+    let jobs: Vec<(usize, &str, usize)> = FLAVOURS.iter().enumerate()
+        .filter(|(_, (fl, _))| !(fl.contains("rr") || *fl == "macroOf")) // array / macro sources are limited to MAX_ARR items
+        .flat_map(|(fi, (fl, _))| lens.iter().map(move |n| (fi, *fl, *n))).collect();
+    let parts: Vec<Report> = std::thread::scope(|sc| {
+        let hs: Vec<_> = jobs.iter().map(|&(fi, fl, n)| sc.spawn(move || {
+            let mut r = Report::new("gen", RULE);
+            let src: Vec<i64> = (0..n as i64).collect();
+            let mut rng = SplitMix::derive(seed ^ 0xB16_C011, (fi * 8) as u64 + n as u64);
+            let real = choice_real(fl, (n % 3) as u8, &src, k, &mut rng);
+            r.case(&format!("uniformity-large {fl} {n}"), true);
+            if real.built != "ok" || real.samples.len() != k {
+                r.violate(json!({"case": format!("uniformity-large {fl} len={n} samples={k}"), "what": "could not build / sample a non-empty collection", "real": real.built}));
+                return r;
+            }
+            let mut vals: Vec<i64> = real.samples.iter().map(|(_, v)| *v).collect();
+            if vals.iter().any(|v| *v < 0 || *v >= n as i64) {
+                r.violate(json!({"case": format!("uniformity-large {fl} len={n}"), "what": "a sample is not a member of the collection"}));
+                return r;
+            }
+            vals.sort_unstable();
+            let mut coll: f64 = 0.0;
+            let mut run = 1u64;
+            for w in 1..=vals.len() {
+                if w < vals.len() && vals[w] == vals[w - 1] { run += 1; } else { coll += (run * (run - 1) / 2) as f64; run = 1; }
+            }
+            let pairs = (k as f64) * (k as f64 - 1.0) / 2.0;
+            let mean = pairs / n as f64;
+            let sd = (pairs * (1.0 / n as f64) * (1.0 - 1.0 / n as f64)).sqrt();
+            let z = (coll - mean) / sd;
+            r.hit_n("uniformity-large samples", k as u64);
+            if z.abs() > 10.0 {
+                r.violate(json!({"case": format!("uniformity-large {fl} len={n} samples={k}"), "what": "members of a large collection are not chosen with equal probability: the number of colliding pairs of draws is more than 10 standard deviations from that of a uniform choice", "real": coll, "spec": mean, "z": z}));
+            }
+            r
+        })).collect();
+        hs.into_iter().map(|h| h.join().expect("uniformity worker")).collect()
+    });
+    for p in parts { r.merge(p); }
+    r.notes.push(format!("uniformity of large collections: collision count of {k} draws from 40000 / 49152 / 65535 / 100003 members per non-array flavour, two-sided at 10 sigma"));
+}
+
 // ---------------------------------------------------------------------------------------------
 // family entry
 // ---------------------------------------------------------------------------------------------
@@ -821,6 +871,7 @@ pub fn run(cfg: &Cfg) -> Report {
     });
     rep.merge(pre);
     uniformity(&mut rep, seed, thorough);
+    uniformity_large(&mut rep, seed, thorough);
     rep.exhaustive = true;
     rep.notes.push(format!("exhaustive scope: {} flavours x source lengths 0..={} x {} seeds (all agree unless listed); random: {} choice cases, {} collection cases", FLAVOURS.len(), MAX_ARR, reps, n_rand_choice, n_coll));
     rep
